@@ -29,9 +29,9 @@ struct Call
 };
 std::vector<Call> *calls;
 
-enum { P_MULTI_THREAD = 0, P_NEGATIVE, P_ZERO, P_NESTED, P_TYPE_MAX, P_PARTIAL_LAST_BLOCK, P_FROM_TASK, P_COUNT_GT_THREADS, P_PREFILL, P_THROWING_BODY, P_WIDE, P_WIDE_ABOVE_32BIT };
+enum { P_MULTI_THREAD = 0, P_NEGATIVE, P_ZERO, P_NESTED, P_TYPE_MAX, P_PARTIAL_LAST_BLOCK, P_FROM_TASK, P_COUNT_GT_THREADS, P_PREFILL, P_THROWING_BODY, P_WIDE, P_WIDE_ABOVE_32BIT, P_CONCURRENT_CALLERS };
 const char *probe_names[] = {"call_executed_by_more_than_one_thread", "negative_count", "zero_count", "nested_call", "count_is_type_maximum",
-                             "last_block_partial", "call_from_inside_task", "count_far_above_thread_count", "scheduled_closures_ran", "loop_with_a_throwing_body_planned", "blocks_of_2^30_or_more", "wide_blocks_count_above_2^32", nullptr};
+                             "last_block_partial", "call_from_inside_task", "count_far_above_thread_count", "scheduled_closures_ran", "loop_with_a_throwing_body_planned", "blocks_of_2^30_or_more", "wide_blocks_count_above_2^32", "calls_made_concurrently_by_several_application_threads", nullptr};
 const char *no_faults[] = {nullptr};
 const char *tyname[] = {"unsigned char", "short", "int", "unsigned", "long", "long long", "unsigned long long", "size_t"};
 const char *apiname[] = {"parallel_for", "parallel_foreach(container)", "parallel_foreach(iterators)", "parallel_in_blocks_of", "parallel_foreach(std::deque)", "parallel_in_blocks_of(wide)"};
@@ -144,6 +144,19 @@ void do_plan(int tier)
     c.from_task_n = 2 + (int)sim_plan(3);
     total += c.count > 0 && c.api != C01_BLOCKS_WIDE ? c.count : 0;
   }
+  // drawn last (earlier draws keep their meaning): concurrent callers. enkiTS documents that only the initialising thread and
+  // its tasks may use the scheduler, so the internal lanes are left out.
+  plan.concurrent = 0;
+  if ((lane == LANE_TBB || lane == LANE_OMP || lane == LANE_DEBUG) && plan.ncalls > 1 && sim_plan(5) == 4) {
+    plan.concurrent = 1;
+    for (int i = 0; i < plan.ncalls; i++) {
+      C01Call &c = plan.calls[i];
+      c.from_task = 0;
+      c.prefill = c.prefill_block = 0;
+      c.throw_at = -1;
+    }
+    sim_probe(P_CONCURRENT_CALLERS);
+  }
   sim_set_step_cap(total > 2000 ? 4000000 : 1200000);
 }
 
@@ -165,7 +178,7 @@ int stuck(int deadlock, char *cls, size_t n)
 
 void describe(char *buf, size_t n)
 {
-  int k = snprintf(buf, n, "{\"init_threads\": %d, \"calls\": [", plan.init_threads);
+  int k = snprintf(buf, n, "{\"init_threads\": %d, \"concurrent_callers\": %d, \"calls\": [", plan.init_threads, plan.concurrent);
   for (int i = 0; i < plan.ncalls && k < (int)n - 400; i++) {
     const C01Call &c = plan.calls[i];
     k += snprintf(buf + k, n - k, "%s{\"api\": \"%s\", \"index_type\": \"%s\", \"count\": %lld, \"block\": %d, \"cost\": \"%d every %d\"", i ? "," : "",
